@@ -401,7 +401,11 @@ func TestVerifC16Limiter(t *testing.T) {
 				}
 				for j := 0; j < n; j++ {
 					op := []string{"allow", "done", "node", "ns", "total", "reset"}[r.Weighted(30, 30, 12, 12, 12, 2)]
-					plans[gi] = append(plans[gi], planned{op, fmt.Sprintf("node%d", r.Intn(nodes)), fmt.Sprintf("ns%d", r.Intn(nss))})
+					node := fmt.Sprintf("node%d", r.Intn(nodes))
+					if (op == "allow" || op == "done") && r.Pct(12) {
+						node = "" // a pod that is not assigned to a node: namespace and total caps only
+					}
+					plans[gi] = append(plans[gi], planned{op, node, fmt.Sprintf("ns%d", r.Intn(nss))})
 				}
 			}
 			yield := c16Yielder(r.Fork())
